@@ -17,7 +17,7 @@ def detinv : P String := do
 
 def exec (op : String) : P (Option String) := do
   match op with
-  | "solve" => let tag ← tok; some <$> byTag tag (fun K _ => solve (K := K))
+  | "solve" | "solve_ns" => let tag ← tok; some <$> byTag tag (fun K _ => solve (K := K))
   | "detinv" => let tag ← tok; some <$> byTag tag (fun K _ => detinv (K := K))
   | _ => pure none
 end DrvSolve
